@@ -648,9 +648,8 @@ class Parser:
                     elif expr in os.environ:
                         return self.create_envvar(expr)
                     elif quoted:
-                        return self.kconfigize_expr(
-                            ""
-                        )  # macros failed to expand even as environment variable are substituted with empty string
+                        # macros failed to expand even as environment variable are substituted with empty string
+                        return self.kconfig._lookup_const_sym("")
                     else:
                         raise KconfigError(f"{expr}: macro expanded to blank string")
                 elif expr.startswith("{") and expr.endswith("}"):
